@@ -128,6 +128,28 @@ Theorem C04_predicate_dependencies_found : forall (all : dict test) self decl q,
 Proof. exact expanded_dependencies_are_found. Qed.
 Print Assumptions C04_predicate_dependencies_found.
 
+(* THE COMPOSITION with the resolution (Model/Deps.v) for whole projects: DepsPred.expand_project puts the declared dependencies
+   of every test in path form. If preparing such a project fails with "Cannot find dependency test", some test NAMES, by its
+   path, a test that does not exist: predicates are never the cause, whatever they hold for ... *)
+Theorem C04_unknown_dependency_comes_from_a_path : forall decl suites e,
+  resolve_tests_dependencies (expand_project decl suites) (expand_project decl suites) = Err e ->
+  e = ValidationError RDepUnknown ->
+  exists a d, find_test suites a <> None /\ In (DPath d) (decl a) /\ find_test suites d = None.
+Proof. exact unknown_dependency_comes_from_a_path. Qed.
+Print Assumptions C04_unknown_dependency_comes_from_a_path.
+
+(* ... and a one-hop cycle can only come from a test naming its own path; the edges of the expanded project are exactly the
+   path forms of the declarations *)
+Theorem C04_self_edge_comes_from_a_path : forall decl suites a,
+  DepEdge (find_test (expand_project decl suites)) a a -> In (DPath a) (decl a).
+Proof. exact self_edge_comes_from_a_path. Qed.
+Print Assumptions C04_self_edge_comes_from_a_path.
+Theorem C04_edges_of_a_declared_project : forall decl suites a d,
+  DepEdge (find_test (expand_project decl suites)) a d <->
+  find_test suites a <> None /\ In d (expand a (keys_of suites) (decl a)).
+Proof. exact dep_edge_expand. Qed.
+Print Assumptions C04_edges_of_a_declared_project.
+
 (* sensitivity: without the self-exclusion a predicate true of the depending test makes the test its own dependency *)
 Theorem C04_predicate_without_self_exclusion_refuted :
   In [6; 9] (pred_yields_no_self_exclusion [[5; 7]; [6; 9]] [[6; 9]; [5; 7]]) /\
